@@ -26,7 +26,17 @@ def _impl(sig, peaks, troughs, dt=None):
     try:
         with warnings.catch_warnings():
             warnings.simplefilter('ignore')
-            r, d = find_zerox(sig if dt else np.asarray(sig, dtype=float), np.asarray(peaks, dtype=int), np.asarray(troughs, dtype=int))
+            # index containers: int64 arrays / plain python lists / tuples / int32 arrays
+            mk = [lambda v: np.asarray(v, dtype=int), lambda v: [int(x) for x in v], lambda v: tuple(int(x) for x in v),
+                  lambda v: np.asarray(v, dtype=np.int32)][(len(sig) + len(peaks) + 2 * len(troughs)) % 4]
+            arr = sig if dt else np.asarray(sig, dtype=float)
+            if (len(sig) + len(peaks)) % 3 == 0 and arr.flags.writeable and len(peaks) and len(troughs):
+                # a buffer that held other samples a moment ago (refilled in place)
+                buf = np.ascontiguousarray(arr[::-1]).copy()
+                try: find_zerox(buf, mk(peaks), mk(troughs))
+                except Exception: pass
+                buf[:] = arr; arr = buf
+            r, d = find_zerox(arr, mk(peaks), mk(troughs))
         return ['ok', [[str(int(x)) for x in r], [str(int(x)) for x in d]]]
     except Exception as e:
         return ['err', type(e).__name__]
